@@ -115,23 +115,27 @@ def removeZero (cs : Coins) : Coins := cs.filter (fun c => c.amount != 0)
 
 def inI64 (x : Int) : Bool := decide (-maxInt64 - 1 ≤ x) && decide (x ≤ maxInt64)
 
-/-- `Coins.AddUnsafe`: the merge over two (supposedly sorted) sets; `none` = the
+/-- `Coins.AddUnsafe`, inner loop: the head `a` of the first set (tail `ra`) against the second
+    set; `k` continues with the first set advanced (`k = addUnsafe ra`).  `none` = the
     `overflow.Add` panic of `Coin.AddUnsafe`. -/
-def addUnsafe : Coins → Coins → Option Coins
-  | [], b => some (removeZero b)
-  | a :: ra, [] => some (removeZero (a :: ra))
-  | a :: ra, b :: rb =>
+def mergeInto (a : Coin) (ra : Coins) (k : Coins → Option Coins) : Coins → Option Coins
+  | [] => some (removeZero (a :: ra))
+  | b :: rb =>
     if strLt a.denom b.denom then
-      (addUnsafe ra (b :: rb)).map (fun rest => if a.amount = 0 then rest else a :: rest)
+      (k (b :: rb)).map (fun rest => if a.amount = 0 then rest else a :: rest)
     else if a.denom = b.denom then
       if inI64 (a.amount + b.amount) then
-        (addUnsafe ra rb).map (fun rest =>
+        (k rb).map (fun rest =>
           if a.amount + b.amount = 0 then rest else ⟨a.denom, a.amount + b.amount⟩ :: rest)
       else none
     else
-      (addUnsafe (a :: ra) rb).map (fun rest => if b.amount = 0 then rest else b :: rest)
-termination_by a b => a.length + b.length
-decreasing_by all_goals simp_wf <;> omega
+      (mergeInto a ra k rb).map (fun rest => if b.amount = 0 then rest else b :: rest)
+
+/-- `Coins.AddUnsafe`: the merge over two (supposedly sorted) sets: the smaller denomination
+    first, equal denominations added, zero results and zero coins dropped. -/
+def addUnsafe : Coins → Coins → Option Coins
+  | [], b => some (removeZero b)
+  | a :: ra, b => mergeInto a ra (addUnsafe ra) b
 
 /-- `Coins.Add`: AddUnsafe, panic unless the result validates. -/
 def coinsAdd (a b : Coins) : Option Coins :=
